@@ -50,7 +50,7 @@ func alphabet() []op {
 	a = append(a, op{"addExt", "n2", "e2"}, op{"addHTTP", "n1", ""}, op{"addHTTP", "n2", ""}, op{"addHTTPbusy", "n1", ""},
 		op{"editHTTP", "n1", ""}, op{"remove", "nx", ""},
 		op{"svcUp", "s1", ""}, op{"svcUp", "s2", ""}, op{"svcDown", "s1", ""}, op{"svcDown", "s2", ""},
-		op{"addSvc", "n1", "s1"}, op{"addSvc", "n2", "s2"}, op{"addExC2", "n2", "s1"})
+		op{"addSvc", "n1", "s1"}, op{"addSvc", "n2", "s2"}, op{"addExC2", "n2", "s1"}, op{"addExC2", "n1", "s1"}, op{"addExC2", "n1", "s2"}, op{"addExC2x2", "x1", "s1"})
 	return a
 }
 
@@ -244,9 +244,15 @@ func (w *world) apply(o op) {
 	case "addSvc":
 		// an operator adds a listener of the protocol that service connection registered
 		w.dispatch(L.Type, L.Add, map[string]any{"Name": o.name, "Protocol": "proto-" + o.arg})
+	case "addExC2x2":
+		// two ExC2 listeners of one connection, registered back to back
+		s := w.svc[o.arg]
+		for _, n := range []string{o.name, o.name + "b"} {
+			w.svcSend(s, map[string]any{"Head": map[string]any{"Type": "Listener", "RequestID": "r1"}, "Body": map[string]any{"Type": "ListenerAddExC2", "Name": n, "Endpoint": "ex-" + n + "-" + o.arg}})
+		}
 	case "addExC2":
 		s := w.svc[o.arg]
-		w.svcSend(s, map[string]any{"Head": map[string]any{"Type": "Listener", "RequestID": "r1"}, "Body": map[string]any{"Type": "ListenerAddExC2", "Name": o.name, "Endpoint": "ex-" + o.arg}})
+		w.svcSend(s, map[string]any{"Head": map[string]any{"Type": "Listener", "RequestID": "r1"}, "Body": map[string]any{"Type": "ListenerAddExC2", "Name": o.name, "Endpoint": "ex-" + o.name + "-" + o.arg}})
 	}
 }
 
@@ -262,7 +268,7 @@ func (w *world) enabled(maxRemoves int) []int {
 			if s := w.svc[o.name]; s == nil || !s.up {
 				continue
 			}
-		case "addSvc", "addExC2":
+		case "addSvc", "addExC2", "addExC2x2":
 			if s := w.svc[o.arg]; s == nil || !s.up {
 				continue
 			}
@@ -423,7 +429,7 @@ func (w *world) invariants(last op) (string, string) {
 	for _, l := range w.ts.T.Listeners {
 		if isServiceExC2(l) {
 			e := l.Config.(*handlers.External)
-			owner := strings.TrimPrefix(e.Config.Endpoint, "ex-")
+			owner := e.Config.Endpoint[strings.LastIndex(e.Config.Endpoint, "-")+1:]
 			if s := w.svc[owner]; s == nil || !s.up {
 				return "service-exc2-leftover/after:" + last.kind, fmt.Sprintf("ExC2 listener %s (endpoint %s) outlives the service connection %s that registered it", l.Name, e.Config.Endpoint, owner)
 			}
@@ -436,13 +442,22 @@ func (w *world) invariants(last op) (string, string) {
 			owned[e.Config.Endpoint] = true
 		}
 	}
+	routed := map[string]int{}
+	for _, ep := range w.ts.T.Endpoints {
+		routed[ep.Endpoint]++
+	}
+	for _, l := range w.ts.T.Listeners {
+		if e, ok := l.Config.(*handlers.External); ok && routed[e.Config.Endpoint] == 0 {
+			return "external-listener-without-endpoint/after:" + last.kind, fmt.Sprintf("External listener %s is listed (running, persisted, advertised) but its endpoint %q is not routed any more", l.Name, e.Config.Endpoint)
+		}
+	}
 	for _, ep := range w.ts.T.Endpoints {
 		wantEndpoints = append(wantEndpoints, ep.Endpoint)
 		if !owned[ep.Endpoint] {
 			return "endpoint-leftover/after:" + last.kind, fmt.Sprintf("endpoint %q is still routed although no External listener uses it", ep.Endpoint)
 		}
 		if strings.HasPrefix(ep.Endpoint, "ex-") {
-			owner := strings.TrimPrefix(ep.Endpoint, "ex-")
+			owner := ep.Endpoint[strings.LastIndex(ep.Endpoint, "-")+1:]
 			if s := w.svc[owner]; s == nil || !s.up {
 				return "service-endpoint-leftover/after:" + last.kind, fmt.Sprintf("endpoint %s outlives the service connection %s", ep.Endpoint, owner)
 			}
